@@ -237,22 +237,44 @@ def music_writer_layout(ctx):
     if len(loops) != 1:
         raise AnalysisError('Music.to_lines loop')
     lp = loops[0]
-    rng = None
-    if isinstance(lp.iter, ast.Call) and len(lp.iter.args) == 3:
-        step = ctx.consts.eval_expr(f.module, lp.iter.args[2])
-        rng = step
+    if not (isinstance(lp.iter, ast.Call) and
+            isinstance(lp.iter.func, ast.Name) and
+            lp.iter.func.id == 'range' and isinstance(lp.target, ast.Name)):
+        raise AnalysisError('Music.to_lines loop header')
+    # the pattern loop: either the byte offset (step s over len(data)) or the
+    # pattern number (len(data) // s)
+    args = lp.iter.args
+    ln = 'len(self._data)'
+    step = None
+    if len(args) == 3 and ast.unparse(args[1]) == ln and \
+            ctx.consts.eval_expr(f.module, args[0]) == 0:
+        step = ctx.consts.eval_expr(f.module, args[2])
+        mult = step
+    elif len(args) == 1 and isinstance(args[0], ast.BinOp) and \
+            isinstance(args[0].op, ast.FloorDiv) and \
+            ast.unparse(args[0].left) == ln:
+        step = ctx.consts.eval_expr(f.module, args[0].right)
+        mult = 1
+    if not isinstance(step, int):
+        raise AnalysisError('Music.to_lines loop header: ' +
+                            ast.unparse(lp.iter)[:50])
     v = lp.target.id
-    env = {v: Aff({'k': 4}, 0)}
+    env = {v: Aff({'k': mult}, 0)}
     ev, ps = LY.run_method(ctx, q, env, {'k': (0, 63)}, body=lp.body)
     live = [p for p in ps if not p.raised]
-    if len(live) != 1 or len(live[0].yields) != 1:
+    if not live or any(len(p.yields) != 1 for p in live):
         raise AnalysisError('Music.to_lines yield')
-    items = digits_of_text(_txt(live[0].yields[0]))
-    base = Aff({'k': 4}, 0)
-    out = []
-    for kind, val in items:
-        out.append(digit_sources(val, base) if kind == 'd' else ('lit', val))
-    return {'step': rng, 'line': out, 'func': f}
+    base = Aff({'k': step}, 0)
+    lines = []
+    for p in live:
+        items = digits_of_text(_txt(p.yields[0]))
+        out = []
+        for kind, val in items:
+            out.append(digit_sources(val, base) if kind == 'd'
+                       else ('lit', val))
+        lines.append(([a for a in p.assume if isinstance(a, tuple) and
+                       len(a) == 2], out))
+    return {'step': step, 'line': lines[0][1], 'lines': lines, 'func': f}
 
 
 def music_reader_layout(ctx):
